@@ -373,11 +373,13 @@ class FuncFlow:
                 out.setdefault(name, set()).update(s)
             return out
 
-        work = [n.id for n in cfg.nodes]
+        import heapq
+        work = [n.id for n in cfg.nodes]      # node ids are created in program order: a heap visits in near-topological order
+        heapq.heapify(work)
         inwork = set(work)
         OUT[cfg.entry.id] = transfer(cfg.entry.id)
         while work:
-            nid = work.pop()
+            nid = heapq.heappop(work)
             inwork.discard(nid)
             new_in: T.Dict[str, T.Set[int]] = {}
             for p, lab in cfg.pred[nid]:
@@ -394,7 +396,7 @@ class FuncFlow:
                 for b, _ in cfg.succ[nid]:
                     if b not in inwork:
                         inwork.add(b)
-                        work.append(b)
+                        heapq.heappush(work, b)
         self.IN = {nid: {name: frozenset(s) for name, s in d.items()} for nid, d in IN.items()}
 
     # -- evaluation -------------------------------------------------------
@@ -876,13 +878,99 @@ class FuncFlow:
             groups = rest + [(roots, merged)]
         return [m for _, m in groups]
 
+    # -- def-use liveness of accumulations ------------------------------------------------------------------
+    def node_roots(self, n: Node) -> T.List[ast.AST]:
+        st = n.ast
+        if n.kind == 'stmt':
+            return [st] if st is not None else []
+        if n.kind == 'test':
+            return [st.test]  # type: ignore[union-attr]
+        if n.kind == 'iter':
+            return [st.iter]  # type: ignore[union-attr]
+        if n.kind == 'with_enter':
+            return [i.context_expr for i in st.items]  # type: ignore[union-attr]
+        if n.kind == 'handler':
+            return [st.type] if getattr(st, 'type', None) is not None else []  # type: ignore[union-attr]
+        return []
+
+    def dead_accumulations(self) -> T.List[Def]:
+        """Weak definitions (append/extend/+=/add/update on a local) that no read ever observes, directly or through
+        other definitions: the collected values leave the function nowhere.  Any read that is not the right-hand side
+        of another definition (call argument, return, test, attribute store, use inside a nested function) keeps a
+        definition alive; the receiver position of a mutator call is not a read."""
+        consumers: T.Dict[int, T.Set[int]] = {}
+        live: T.Set[int] = set()
+        for n in self.cfg.nodes:
+            owner: T.Dict[int, T.List[int]] = {}
+            for d2 in self.by_node.get(n.id, []):
+                if d2.value is not None and not d2.param:
+                    for x in ast.walk(d2.value):
+                        if isinstance(x, ast.Name):
+                            owner.setdefault(id(x), []).append(d2.id)
+            recv: T.Set[int] = set()
+            roots = self.node_roots(n)
+            for r in roots:
+                for c in ast.walk(r):
+                    if isinstance(c, ast.Call) and isinstance(c.func, ast.Attribute) and c.func.attr in MUTATORS and isinstance(c.func.value, ast.Name):
+                        recv.add(id(c.func.value))
+            for r in roots:
+                for x in ast.walk(r):
+                    if not (isinstance(x, ast.Name) and isinstance(x.ctx, ast.Load)):
+                        continue
+                    ds = self.IN[n.id].get(x.id, frozenset())
+                    if id(x) in owner:
+                        for d in ds:
+                            consumers.setdefault(d, set()).update(owner[id(x)])
+                    elif id(x) in recv:
+                        continue
+                    else:
+                        live |= ds
+        for d in self.defs:          # a definition of a parameter name is visible to the caller
+            if d.name in self.params:
+                live.add(d.id)
+        changed = True
+        while changed:
+            changed = False
+            for d, cs in consumers.items():
+                if d not in live and cs & live:
+                    live.add(d)
+                    changed = True
+        reachable = self.cfg.reachable([self.cfg.entry], include_start=True)
+        return [d for d in self.defs if not d.strong and not d.param and d.id not in live and d.node in reachable
+                and d.name not in self.params and self._fresh_container(d)]
+
+    FRESH_CTORS = {'list', 'set', 'dict', 'tuple', 'OrderedSet', 'OrderedDict', 'defaultdict', 'deque'}
+
+    def _fresh_container(self, d: Def) -> bool:
+        """The accumulator mutated at `d` is a container created in this function (a display, a comprehension,
+        list()/set()/..., x.copy(), a concatenation): otherwise it may alias an object owned elsewhere
+        (`blk = self.data[k]; blk.append(..)`), and a mutation without a later read is still an effect."""
+        strong = [self.defs[i] for i in self.elem_defs(d.name, self.cfg.nodes[d.node]) if self.defs[i].strong]
+        if not strong:
+            return False
+        for s in strong:
+            v = s.value
+            if s.param or v is None or s.index is not None:
+                return False
+            if isinstance(v, ast.Name):
+                return False  # `cur = vala; cur[f] = x` mutates the other local: aliasing between locals is not tracked
+            if isinstance(v, (ast.List, ast.Set, ast.Dict, ast.ListComp, ast.SetComp, ast.DictComp, ast.BinOp)):
+                continue
+            if isinstance(v, ast.Call):
+                if isinstance(v.func, ast.Name) and v.func.id in self.FRESH_CTORS:
+                    continue
+                if isinstance(v.func, ast.Attribute) and v.func.attr == 'copy' and not v.args:
+                    continue
+            return False
+        return True
+
     # -- other sink shapes ----------------------------------------------------
     def calls_of(self, callee: str) -> T.List[T.Tuple[Node, ast.Call]]:
         out = []
         seen: T.Set[int] = set()
         for n in self.cfg.nodes:
             for c in self.node_calls(n):
-                if call_name(c) == f'self.{callee}' and id(c) not in seen:
+                if call_name(c) in (f'self.{callee}', callee) and id(c) not in seen:
                     seen.add(id(c))
                     out.append((n, c))
         return out
